@@ -83,8 +83,8 @@ impl C07 {
         let mut fams = Fams::default();
         fams.add("bundled database: config x prefix x name x plural", vec![3, prefixes.len() as u64, names.len() as u64, 2]);
         fams.add("all sub-databases of the colliding pool", vec![1 << POOL.len()]);
-        fams.add("second load redefining names: every subset of 7 redefinitions as one extra file", vec![1 << REDEF.len()]);
-        fams.add("third load: every ordered pair of redefinitions as two extra files", vec![(REDEF.len() * REDEF.len()) as u64]);
+        fams.add("second load redefining names: every subset of 7 redefinitions as one extra file", vec![1 << REDEF.len(), 4]);
+        fams.add("third load: every ordered pair of redefinitions as two extra files", vec![(REDEF.len() * REDEF.len()) as u64, 4]);
         C07 { fams, names, prefixes, plain: Lazy::new(), cur: Lazy::new(), session: Lazy::new() }
     }
 }
@@ -257,7 +257,7 @@ impl Space for C07 {
         Meta {
             id: "C07",
             level: "exploration",
-            rule: "every string prefix+name[+s] over all prefixes (and none) x all unit and base-unit names of the bundled database, with and without the currency overlay and in a context that holds a previous answer, looked up through Context::lookup on two independent loads and compared with an independent resolver over the registry dump (exact, else any valid prefix split, else plural); lookup(canonicalize(n)) must equal lookup(n). Plus all 2^12 sub-databases of a pool of colliding definitions (incl. quantities named like units) x 100 concatenated query names, each loaded together with one entry parsed by the query parser (`a_half = sqrt(900 min^2)`, the way JSON currency data arrives) whose value must be 30 x whatever `min` denotes exact-first; plus load histories on one Context: a 10-line base database followed by every subset of 7 redefinitions (aliases re-pointed, values changed, prefixes changed) as a second file, and every ordered pair of them as a second and third file, x 64 names each. Non-trivial = the name has at least one reading or rink resolves it; distinct by (config, name)".into(),
+            rule: "every string prefix+name[+s] over all prefixes (and none) x all unit and base-unit names of the bundled database, with and without the currency overlay and in a context that holds a previous answer, looked up through Context::lookup on two independent loads and compared with an independent resolver over the registry dump (exact, else any valid prefix split, else plural); lookup(canonicalize(n)) must equal lookup(n). Plus all 2^12 sub-databases of a pool of colliding definitions (incl. quantities named like units) x 100 concatenated query names, each loaded together with one entry parsed by the query parser (`a_half = sqrt(900 min^2)`, the way JSON currency data arrives) whose value must be 30 x whatever `min` denotes exact-first; plus load histories on one Context: a 10-line base database followed by every subset of 7 redefinitions (aliases re-pointed, values changed, prefixes changed) as a second file, and every ordered pair of them as a second and third file, x 64 names each, with the later files given as text or as parsed entries and with or without a lookup of every name before each load. Non-trivial = the name has at least one reading or rink resolves it; distinct by (config, name)".into(),
             assumptions: vec![
                 "the statement does not rank competing prefix splits: any valid split is accepted, determinism pins the choice".into(),
                 "the registry dump gives each exact name's value".into(),
@@ -283,7 +283,7 @@ impl Space for C07 {
             let lines: Vec<&str> = (0..POOL.len()).filter(|i| d[0] >> i & 1 == 1).map(|i| POOL[i]).collect();
             format!("sub-database {{{}}}", lines.join("; "))
         } else {
-            format!("base database, then {}", Self::loads(f, d[0]).iter().map(|l| format!("load {{{}}}", l.trim().replace('\n', "; "))).collect::<Vec<_>>().join(", then "))
+            format!("base database{}, then {}", ["", " (later files as parsed entries)", " (names looked up before each load)", " (names looked up before each load; later files as parsed entries)"][d[1] as usize], Self::loads(f, d[0]).iter().map(|l| format!("load {{{}}}", l.trim().replace('\n', "; "))).collect::<Vec<_>>().join(", then "))
         }
     }
     fn sample_indices(&self) -> Vec<u64> {
@@ -344,19 +344,38 @@ impl Space for C07 {
             out
         } else if f >= 2 {
             let loads = Self::loads(f, d[0]);
+            // the later files arrive as text (load_definitions) or as parsed entries (Context::load,
+            // which is what the CLI and the currency loader use); optionally every name is looked
+            // up once before they arrive, so that anything a lookup remembers is already filled
+            let (parsed, warm) = (d[1] & 1 == 1, d[1] & 2 == 2);
             let load = || {
                 let mut c = Context::new();
                 c.use_humanize = false;
                 let _ = c.load_definitions(BASE2);
                 for l in &loads {
-                    let _ = c.load_definitions(l);
+                    if warm {
+                        for p in QP2 {
+                            for u in QU2 {
+                                for sfx in ["", "s"] {
+                                    let n = format!("{}{}{}", p, u, sfx);
+                                    let _ = c.lookup(&n);
+                                    let _ = c.canonicalize(&n);
+                                }
+                            }
+                        }
+                    }
+                    if parsed {
+                        let _ = c.load(rink_core::loader::gnu_units::parse_str(l));
+                    } else {
+                        let _ = c.load_definitions(l);
+                    }
                 }
                 c
             };
             let a = load();
             let dump = regdump::dump(&a);
             let l = Loaded { a, b: load(), dump };
-            let tag = format!("base; {}", loads.iter().map(|l| l.trim().replace('\n', "; ")).collect::<Vec<_>>().join(" | "));
+            let tag = format!("base; {}{}{}", loads.iter().map(|l| l.trim().replace('\n', "; ")).collect::<Vec<_>>().join(" | "), if parsed { " [as parsed entries]" } else { "" }, if warm { " [names looked up before each load]" } else { "" });
             let mut out = CaseOut::ok("reloaded database").key(hash64(&tag));
             let mut n = 0;
             for p in QP2 {
